@@ -56,7 +56,8 @@ Fixpoint insert_by_snd (e : Z * Z) (l : list (Z * Z)) : list (Z * Z) :=
 Definition sort_by_snd (l : list (Z * Z)) : list (Z * Z) := fold_right insert_by_snd [] l.
 
 Definition run_rand (seqm : bool) (t t' : topology) : sexp :=
-  let spec_applies := types_closed t && negb (indexed t' 0) in
+  (* sequential mode: no side condition; random mode: the theorem excludes a draw of id 0 *)
+  let spec_applies := types_closed t && (seqm || negb (indexed t' 0)) in
   if spec_applies && negb (renumber_ok seqm t t') then
     v_specfail "c14-renumber" (L [of_bool seqm; I (zlen (tpIndex t)); I (zlen (tpIndex t'))])
   else
